@@ -96,14 +96,54 @@ def tok_dict(c, reg):
   return [-70, 1 if c.get('type') == 'eq' else 0] + tok(c.get('fun'), reg) + tok(c.get('jac'), reg)
 
 
+def is_fn_object(x):
+  return hasattr(x, 'deriv') and hasattr(x, 'hess') and not hasattr(x, 'to_dict') and hasattr(x, '__dict__')
+
+
+def reachable_fns(obj):
+  """the preference-function objects reachable from a device (`f`, `_cost_fn`, and through their fields / lists)."""
+  seen, out, todo = set(), [], []
+  for k in ('_f', '_cost_fn'):
+    v = vars(obj).get(k, getattr(type(obj), k, None))
+    if v is not None:
+      todo.append(v)
+  while todo:
+    x = todo.pop()
+    if id(x) in seen:
+      continue
+    seen.add(id(x))
+    if is_fn_object(x):
+      out.append(x)
+      for v in fields_of(x).values():
+        todo += list(v) if isinstance(v, (list, tuple)) else [v]
+  return out
+
+
+MODELLED_FIELDS = ('_deriv', '_hess')      # the Poly2D / Poly2DOffset caches are cells of the model
+
+
+def fields_of(x):
+  C.repo()
+  from device_kit import functions as Fm
+  drop = MODELLED_FIELDS if isinstance(x, (Fm.Poly2D, Fm.Poly2DOffset)) else ()
+  return {k: v for k, v in vars(x).items() if k not in drop}
+
+
 def inst_snapshot(obj):
-  """the instance fields of a device object (own __dict__; an adaptor's __getattr__ delegation is not followed)."""
-  return {k: H.snap(v) for k, v in vars(obj).items()}
+  """the instance fields of a device object (own __dict__; an adaptor's __getattr__ delegation is not followed) and of
+  every function object reachable from it."""
+  return [(x, {k: H.snap(v) for k, v in fields_of(x).items()}) for x in [obj] + reachable_fns(obj)]
 
 
 def inst_changed(obj, snp):
-  cur = vars(obj)
-  return list(cur.keys()) != list(snp.keys()) or any(not H.same(cur[k], snp[k]) for k in snp)
+  now = [obj] + reachable_fns(obj)
+  if len(now) != len(snp) or any(a is not b[0] for a, b in zip(now, snp)):
+    return True
+  for x, old in snp:
+    cur = fields_of(x)
+    if list(cur.keys()) != list(old.keys()) or any(not H.same(cur[k], old[k]) for k in old):
+      return True
+  return False
 
 
 class Exec:
@@ -238,7 +278,14 @@ class Exec:
         ld = d.leaf_devices()
         return ('ok', [ld, d.get(ld[-1][0].split('.')[-1]), d.find('.*')])
       if o == 'solve':
-        x, res = dk.solve(d, a[0], a[1]) if a[2] is None else dk.solve(d, a[0], a[1], solver_options=a[2])
+        kw = {}
+        if a[2] is not None:
+          kw['solver_options'] = a[2]
+        if op.get('prox'):
+          kw['prox'] = pf_(op['prox'])
+        if op.get('cb'):
+          kw['cb'] = lambda dev, x: None
+        x, res = dk.solve(d, a[0], a[1], **kw)
         return ('ok', [x, None if res is None else int(res.status)])
       if o == 'step':
         st = pf_(op['stepsize'])
@@ -498,9 +545,22 @@ def fingerprint(ex, hids):
       ex._probes[hid] = probes(ex.walk, hid, ex.n)
     pr = ex._probes[hid]
     e = {}
+    numeric_hess = any(lf['mat'] is not None for lf in H.w_leaves(H.w_find(ex.world['root'], hid)))
+    def take(thunk):
+      """the answer (flattened), after which the caller overwrites the array it was handed."""
+      try:
+        r = thunk()
+        c = canon(np().array(r, dtype=float).reshape(-1))
+        if isinstance(r, np().ndarray) and r.flags.writeable:
+          r[...] = 7
+        return c
+      except Exception as e_:
+        return 'EXC:' + type(e_).__name__
     for j, (S, P) in enumerate(pr):
       e['cost%d' % j] = guarded(lambda: d.cost(S.copy(), P.copy()))
-      e['deriv%d' % j] = guarded(lambda: np().array(d.deriv(S.copy(), P.copy()), dtype=float).reshape(-1))
+      e['deriv%d' % j] = take(lambda: d.deriv(S.copy(), P.copy()))
+      if not numeric_hess:           # storage / thermal Hessians are numdifftools runs: only compared op by op
+        e['hess%d' % j] = take(lambda: d.hess(S.copy()))
     e['bounds'] = guarded(lambda: [d.bounds, d.lbounds, d.hbounds])
     try:
       cs = d.constraints
@@ -519,12 +579,12 @@ def fingerprint(ex, hids):
   return fp
 
 
-def watch_ids(world):
-  """the root, every adaptor and every wrapped / atomic ADevice with user constraints, every storage / thermal leaf."""
+def watch_ids(world, walk=None):
+  """the root, every adaptor, every wrapped / atomic ADevice, every storage / thermal leaf."""
   ids = [world['root']['id']]
   def go(dev):
     if dev['k'] == 'leaf':
-      if dev['ucons'] or dev['mat'] is not None or dev['polys']:
+      if dev['ucons'] or dev['mat'] is not None or dev['polys'] or (walk is not None and walk.desc[dev['id']][1]['cls'] == 'ADevice'):
         ids.append(dev['id'])
     elif dev['k'] == 'mf':
       ids.append(dev['id']); go(dev['w'])
@@ -735,7 +795,7 @@ def run_oracle(case, stats=None):
     tw = Exec(case, clear=False, only=k, early=False)
     R[k] = result_form(tw.run_op(k))
   twin0 = Exec(case, clear=False, early=False)      # pristine reference for the behavioural fingerprint
-  hids = watch_ids(twin0.world)
+  hids = watch_ids(twin0.world, twin0.walk)
   F0 = fingerprint(twin0, hids)
   used = Exec(case, clear=False, early=True)
   root_cls = type(used.live[used.world['root']['id']]).__name__
@@ -824,10 +884,11 @@ class C12(Prop):
           'storage / thermal leaves; single leaves of every class; single adaptors) x random history (<= 12 ops quick, <= 60 thorough) of '
           'cost/deriv/hess/bounds/constraints/callFun/callJac/project/map/to_dict/leaf_devices+get+find/solve/step/utils.project/cache_clear '
           'on the root, sub-sets, adaptors, wrapped devices, conduits and leaves, incl. child-then-parent pairs, operations on a child before its '
-          'parent is constructed, one caller-owned flow buffer rewritten in place and passed again, explicit solver options followed by default '
+          'parent is constructed, one caller-owned flow buffer rewritten in place and passed again (forced on every leaf class in every run), '
+          'out-of-box and noise-sized (1e-12) entries in ~30% of flow arguments, proximal solves / callbacks / zero prices, explicit solver options followed by default '
           'calls, and the caller scribbling over returned arrays / lists / dicts; non-trivial: the history reads constraints >= 2x, or solves/steps and '
           'then evaluates again')
-  sizes = {'quick': 175, 'thorough': 1200}
+  sizes = {'quick': 175, 'thorough': 1000}
   assumptions = ['heap abstraction (which cells exist) is validated by T2 only: a new mutable field would be seen by T2 / the oracle, not by Lean',
                  'SciPy SLSQP and numdifftools are exercised by the oracle, not modelled (the model only records which cells a solve reads / fills)',
                  'solve / step / utils.project calls on models where SciPy\'s SLSQP is known to corrupt memory (more equality constraints than the '
@@ -850,7 +911,11 @@ class C12(Prop):
 
   def cases(self, rng, tier, count):
     out = []
-    for _ in range(count):
+    for cls in H.DIRECTED_CLASSES:       # in every run: every leaf class sees one caller-owned buffer rewritten in place
+      c = H.gen_case(rng, tier, force_cls=cls)
+      c['fp'] = 'end'
+      out.append(c)
+    for _ in range(max(0, count - len(out))):
       if rng.random() < 0.12:
         out.append(gen_region_case(rng, tier))
       else:
